@@ -52,7 +52,7 @@ func matchKnown(known []engine.KnownFinding, prop string, f engine.Failure) *eng
 	}
 	for i := range known {
 		k := &known[i]
-		if k.Property == prop && k.Oracle == f.Oracle && k.Cause == f.Cause && k.Status == "known" {
+		if k.Property == prop && (k.Oracle == f.Oracle || k.Oracle == "*") && k.Cause == f.Cause && k.Status == "known" {
 			return k
 		}
 	}
